@@ -328,7 +328,16 @@ def i4(ctx):
                         l.kids[2].kind == 'BinaryOperator' and l.kids[2].op in ('<', '<=', '>', '>=', '!=') and \
                         v in (member_path(strip_casts(l.kids[2].kids[0])),
                               member_path(strip_casts(l.kids[2].kids[1]))):
-                    induction = True
+                    rel = relation(l.kids[2])
+                    if rel is None:
+                        induction = True          # `i != n`
+                    else:
+                        small, big, strict = rel
+                        # counted up to a bound: strictly below it; counted down: to 0 inclusive
+                        if member_path(strip_casts(small)) == v:
+                            induction = strict
+                        else:
+                            induction = const_eval(small) in (0, -1) and (not strict or const_eval(small) == -1)
             if induction:
                 continue
             n += 1
@@ -349,8 +358,14 @@ def i4(ctx):
                 small, big, strict = relation(cn.ast)
                 if member_path(strip_casts(small)) == v:
                     in_range = const_eval(big) != 0
+                    # v < n admits 0 .. n-1; v <= n would admit n itself (one past the end)
+                    exact = strict or const_eval(big) == 0
                 else:
                     in_range = const_eval(small) in (0, -1)
+                    # n <= v rejects n; n < v would let n through
+                    exact = (not strict) or const_eval(small) in (0, -1)
+                if not exact:
+                    continue
                 good = cfg.forward_reachable([w for (w, lab) in cfg.succ[cn.idx] if lab is in_range])
                 bad = cfg.forward_reachable([w for (w, lab) in cfg.succ[cn.idx] if lab is (not in_range)])
                 if rn in good and rn not in bad:
